@@ -51,6 +51,8 @@ RepMajor(P, reps)   == [k \in 1..(Len(P) * reps) |-> P[((k - 1) % Len(P)) + 1]]
 ComboMajor(P, reps) == [k \in 1..(Len(P) * reps) |-> P[((k - 1) \div reps) + 1]]
 ResOf(r) == [k \in 1..Len(r) |-> [j \in 1..Len(r[k]) |-> <<r[k][j][1], [i \in 1..Len(r[k][j][2]) |-> <<r[k][j][2][i][1], r[k][j][2][i][2]>>]>>]]
 
+SubBag(s, t) == \A x \in Range(s) : Count(s, x) <= Count(t, x)
+
 TrBatchRun ==
     /\ Ev.op = "batch_run" /\ UNCHANGED vars
     /\ LET P     == ProductV(Grid(Ev.grid))
@@ -59,8 +61,18 @@ TrBatchRun ==
                                           /\ (Param(P[k], "d", 0) % 2 = 1 \/ Ev.limit > 0)
            expR  == [k \in 1..(Len(P) * Ev.reps) |-> RunOf(RepMajor(P, Ev.reps)[k], Ev.limit, Ev.two)]
            expC  == [k \in 1..(Len(P) * Ev.reps) |-> RunOf(ComboMajor(P, Ev.reps)[k], Ev.limit, Ev.two)]
-       IN IF fails THEN Ev.out = "Boom"
-          ELSE /\ Ev.out = "ok"
+       \* the error that reaches the caller is the one the execution raised (the fixture's own or one of the library's)
+       IN IF fails
+          THEN \/ Ev.out = Ev.failname /\ dev' = dev
+               \* a repaired library may hand a StopIteration on as RuntimeError (the way generators do since PEP 479)
+               \/ Ev.failname = "StopIteration" /\ Ev.out = "RuntimeError" /\ dev' = dev
+               \* known finding F7: with several processes a StopIteration raised by an execution ends the collecting loop -
+               \* no error reaches the caller, the results collected so far are returned
+               \/ /\ Ev.failname = "StopIteration" /\ Ev.procs > 1 /\ Ev.out = "ok"
+                  /\ SubBag(ResOf(Ev.res), expR) /\ Len(Ev.res) < Len(expR)
+                  /\ dev' = dev \cup {"F7"}
+          ELSE /\ dev' = dev
+               /\ Ev.out = "ok"
                \* one name: the bare records; a list of names (also of one): records by name
                /\ \A k \in 1..Len(Ev.shapes) : Ev.shapes[k] = (IF Ev.sel = "str" THEN "list" ELSE "dict")
                /\ IF Ev.procs = 1 THEN ResOf(Ev.res) = expR \/ ResOf(Ev.res) = expC
@@ -81,10 +93,11 @@ TrGridSearch ==
 
 TraceInit == /\ decl = <<>> /\ next = 1 /\ busy = << >> /\ results = <<>> /\ error = FALSE /\ failedAny = FALSE
              /\ mode = "MIN" /\ score = << >> /\ tid \in 1..Len(Traces) /\ l = 1 /\ dev = {} /\ twin = <<>>
-TraceNext == /\ l <= Len(Traces[tid]) /\ l' = l + 1 /\ UNCHANGED <<tid, dev>>
-             /\ \/ TrInit /\ UNCHANGED Others
-                \/ (TrDeclare \/ TrRemove \/ TrBuild) /\ UNCHANGED Others /\ UNCHANGED twin
-                \/ (TrBatchRun \/ TrGridSearch) /\ UNCHANGED twin
+TraceNext == /\ l <= Len(Traces[tid]) /\ l' = l + 1 /\ UNCHANGED tid
+             /\ \/ TrInit /\ UNCHANGED Others /\ UNCHANGED dev
+                \/ (TrDeclare \/ TrRemove \/ TrBuild) /\ UNCHANGED Others /\ UNCHANGED <<twin, dev>>
+                \/ TrBatchRun /\ UNCHANGED twin
+                \/ TrGridSearch /\ UNCHANGED <<twin, dev>>
 TraceSpec == TraceInit /\ [][TraceNext]_tvars
 Accepted == (l = Len(Traces[tid]) + 1) => PrintT(<<"ACCEPT", tid, dev>>)
 Progress == PrintT(<<"AT", tid, l, ToString(decl)>>)
